@@ -1003,11 +1003,15 @@ def tab4(units, R):
             if nn.kind != 'branch':
                 return None
             c = strip_casts(nn.expr)
-            if c.get('k') == 'bin' and c['op'] == '<=' and is_mem(c['r'], 'length'):
+            if c.get('k') == 'bin' and c['op'] in ('<=', '<') and is_mem(c['r'], 'length'):
                 a = strip_casts(c['l'])
                 if a.get('k') == 'bin' and a['op'] == '+':
                     for (x, y) in ((a['l'], a['r']), (a['r'], a['l'])):
                         if is_mem(x, 'offset'):
+                            if c['op'] == '<':
+                                # offset + S < length (can_access_at_index) demands S + 1 bytes
+                                v = const_val(y)
+                                return {'k': 'int', 'val': v + 1, 'ty': strip_casts(y).get('ty'), 'id': -1} if v is not None else None
                             return y
             return None
         cands = [nn for nn in xcfg.nodes if size_of(nn) is not None]
